@@ -1132,6 +1132,14 @@ class Interp(object):
         """c is known to hold on the rest of the current path (the other outcome diverged)"""
         for x in (c.args if c.op == 'and' else (c,)):
             ub = None
+            if x.op == 'not' and x.args[0].op.startswith('lt:u'):
+                a_, b_ = x.args[0].args
+                # !(a < b)  ==  b <= a
+                if tm.is_const(b_):
+                    self._set_lb(a_, tm.cbits(b_))
+                elif tm.is_const(a_):
+                    self._set_ub(b_, tm.cbits(a_))
+                continue
             if x.op.startswith('lt:u') and tm.is_const(x.args[1]):
                 t, ub = x.args[0], tm.cbits(x.args[1]) - 1
             elif x.op.startswith('le:u') and tm.is_const(x.args[1]):
@@ -1157,6 +1165,18 @@ class Interp(object):
                 if old is None or lb > old:
                     self.assume.append((t.id, old, 'lb'))
                     tm.ASSUME_LB[t.id] = lb
+
+    def _set_lb(self, t, lb):
+        old = tm.ASSUME_LB.get(t.id)
+        if old is None or lb > old:
+            self.assume.append((t.id, old, 'lb'))
+            tm.ASSUME_LB[t.id] = lb
+
+    def _set_ub(self, t, ub):
+        old = tm.ASSUME_UB.get(t.id)
+        if old is None or ub < old:
+            self.assume.append((t.id, old, 'ub'))
+            tm.ASSUME_UB[t.id] = ub
 
     def assume_mark(self):
         return len(self.assume)
